@@ -82,7 +82,7 @@ _BUILTINS: Dict[str, Callable] = {
     "ord": ord, "chr": chr, "len": len, "range": range, "list": list, "tuple": tuple, "dict": dict, "set": set,
     "zip": zip, "enumerate": enumerate, "sorted": sorted, "reversed": reversed, "int": int, "str": str, "bool": bool,
     "min": min, "max": max, "sum": sum, "abs": abs, "bytes": bytes, "float": float, "any": any, "all": all,
-    "frozenset": frozenset, "isinstance": None,
+    "frozenset": frozenset, "slice": slice, "isinstance": None,
 }
 
 _SAFE_METHODS = {
